@@ -17,6 +17,12 @@ TRUSTED_REASONS = {
     'assume_specification: char::is_ascii_alphanumeric': 'total pure bool (no postcondition)',
     'assume_specification: char::is_ascii_hexdigit': 'total pure bool (no postcondition)',
     'assume_specification: char::is_ascii_digit': "true exactly for '0'..='9'",
+    'assume_specification: <[T]>::sort_by_key': 'result is a permutation, sorted (spec_le) by the key the closure is specified to compute',
+    'uninterp: sort_key': 'the key function of the sort_by_key call (defined per unit by sort_key_def)',
+    'uninterp: spec_le': 'Ord on the key type (axiomatised for (usize, usize) as lexicographic order)',
+    'external_body: spec_le_pair': 'lexicographic <= on (usize, usize) = derived Ord of tuples',
+    'external_body: sort_key_def': 'binds sort_key::<Lint,(usize,usize)> to key_of, the function the closure ensures it computes',
+    'external_body: ext_seq_iter': 'an Iterator yields its remaining() elements (vstd iterator model)',
     # --- opaque data / total predicates with NO postcondition ---
     'external_body: is_': 'TokenKind/char predicate used only as an arbitrary total bool',
     'external_body: to_string': 'only inside a panic! message that is proved unreachable',
